@@ -1104,6 +1104,12 @@ class Interp:
             if hasattr(v, "abs_unary"):
                 return v.abs_unary(n.op)
             if isinstance(n.op, ast.Invert):
+                if isinstance(v, bool):
+                    # a lone boolean: for a numpy bool `~` is the logical not (what is returned here), for a plain Python bool it is -1 / -2, both truthy.
+                    # The abstract value does not tell the two apart, so the step is recorded; a harness that passed a Python bool in checks for it.
+                    from .absval import W as _W
+                    _W.hazards.append(f"~ applied to the boolean `{ast.unparse(n.operand)[:40]}` (a plain Python bool gives -1 / -2, which are both truthy)")
+
                 def inv(x):
                     if isinstance(x, bool):
                         return not x
